@@ -800,10 +800,12 @@ def rule_once(repo, chk):
     chk.rule('C01.i', 'the dispatcher unites the handler sets of the channels an event is fired on (set / dict.fromkeys), it does not concatenate them')
     d = repo.func(MANAGER, 'Manager._dispatcher')
     chk.touch(d)
-    sorts = [c for c in calls_in(d.node) if call_name(c) == 'sorted' and c.args]
+    sorts = [(c, c.args[0]) for c in calls_in(d.node) if call_name(c) == 'sorted' and c.args]
+    # (the in-place spelling: `found.sort(key=…)`)
+    sorts += [(c, c.func.value) for c in calls_in(d.node) if isinstance(c.func, ast.Attribute) and c.func.attr == 'sort' and isinstance(c.func.value, ast.Name)]
     need(sorts, 'C01.i: the dispatcher does not sort the handlers')
-    for c in sorts:
-        exprs = list(pat.deref(d, c.args[0]))
+    for c, sorted_expr in sorts:
+        exprs = list(pat.deref(d, sorted_expr))
         more = []
         for e in exprs:
             for w in ast.walk(e):
@@ -866,8 +868,31 @@ def rule_h(repo, chk):
     gr = r.cfg()
     names_def = [n for n in gr.nodes if n.kind == 'stmt' and isinstance(n.ast, ast.Assign) and isinstance(n.ast.targets[0], ast.Name)
                  and f'{r.params[1]}.names' in src(n.ast.value)]
-    okn = bool(names_def) and isinstance(names_def[0].ast.value, ast.IfExp) and f'{r.params[2]} is None' in src(names_def[0].ast.value.test).replace('is not', 'is!')
     nmv = src(names_def[0].ast.targets[0]) if names_def else 'names'
+    # the names to remove from: the one given, else all the handler declares — as a conditional expression or as branches
+    evp = r.params[2]
+    all_defs = [n for n in gr.nodes if n.kind == 'stmt' and isinstance(n.ast, ast.Assign) and src(n.ast.targets[0]) == nmv]
+    given_T = pat.test_edge(lambda tt, pol: pat.fact_matches(pat.compare_fact(tt, pol), evp, ('is not', '!='), 'None'))
+    given_F = pat.test_edge(lambda tt, pol: pat.fact_matches(pat.compare_fact(tt, pol), evp, ('is', '=='), 'None'))
+    okn = bool(names_def)
+    saw_given = saw_all = False
+    for n in all_defs:
+        v = n.ast.value
+        if isinstance(v, ast.IfExp):
+            t_none = pat.fact_matches(pat.compare_fact(v.test, 'T'), evp, ('is', '=='), 'None')
+            t_given = pat.fact_matches(pat.compare_fact(v.test, 'T'), evp, ('is not', '!='), 'None')
+            a_, b_ = (v.body, v.orelse) if t_none else (v.orelse, v.body)
+            if (t_none or t_given) and src(a_) == f'{r.params[1]}.names' and src(b_).replace(' ', '') in (f'[{evp}]', f'({evp},)'):
+                saw_given = saw_all = True
+            else:
+                okn = False
+        elif src(v).replace(' ', '') in (f'[{evp}]', f'({evp},)'):
+            saw_given = True
+            okn = okn and pat.guarded_by(gr, n, given_T) is None
+        elif src(v) == f'{r.params[1]}.names':
+            saw_all = True
+            okn = okn and pat.guarded_by(gr, n, given_F) is None
+    okn = okn and saw_given and saw_all
     loops = [n for n in gr.nodes if n.kind == 'for' and src(n.ast.iter) == nmv]
     okr = False
     for lp in loops:
